@@ -19,6 +19,7 @@ fn handle(line: &str) -> String {
     let args: Vec<&str> = it.collect();
     let out = match stream {
         "pk" => pk::run(&args),
+        "ic" => std::panic::catch_unwind(|| rt::op_iterclone(&args)).unwrap_or_else(|_| "panic".into()),
         "st" => st::run(&args),
         "T" | "V" => "decl".into(),
         "mq" => std::panic::catch_unwind(|| mq::run(&args)).unwrap_or_else(|_| {
